@@ -783,7 +783,11 @@ func (i *interpreter) trackAlloc(fr *frame, instr *ssa.Alloc, cell *value) {
 	}
 	for _, s := range i.cfg.TrackAllocs {
 		if s == "*" {
-			// every escaping local of the engine and AST packages (captured by the goroutines they start)
+			// every escaping local of the engine and AST packages (captured by the goroutines they start);
+			// struct-typed locals (sync.WaitGroup, sync.Mutex, ...) are used through their address only
+			if _, isStruct := mustDeref(instr.Type()).Underlying().(*types.Struct); isStruct {
+				continue
+			}
 			if pk := fr.fn.Pkg; pk != nil && !strings.Contains(pk.Pkg.Path(), "/zz_verif") && strings.Contains(pk.Pkg.Path(), "bilibili/gengine") {
 				i.cellLoc[cell] = i.locByName(fmt.Sprintf("var:%s@%s#%d", instr.Comment, fr.fn.Name(), len(i.cellLoc)), false)
 			}
@@ -1054,7 +1058,7 @@ func (i *interpreter) requireOrder(a, b string) {
 	}
 }
 
-// requireJoined: no mark or tracked access of a spawned thread may come after
+// requireJoined: no mark or tracked write of a spawned thread may come after
 // mark ret (emitted by the caller after the call returned).
 func (i *interpreter) requireJoined(ret string) {
 	rets := i.marks(ret)
@@ -1069,7 +1073,9 @@ func (i *interpreter) requireJoined(ret string) {
 		if e.th == er.th {
 			continue
 		}
-		if e.kind == "mark" || e.kind == "read" || e.kind == "write" {
+		// marks and writes of a goroutine the call started count as its work; a late read alone (the conc
+		// block's launcher goroutines looking at an empty member list) cannot affect anybody
+		if e.kind == "mark" || e.kind == "write" {
 			late = append(late, smt.IntCmp("<", tsVar(er), tsVar(e)))
 			if e.kind == "mark" {
 				names = append(names, e.name)
@@ -1080,6 +1086,16 @@ func (i *interpreter) requireJoined(ret string) {
 		return
 	}
 	r, model, order := i.schedQuery(smt.Or(late...))
+	if r == smt.Sat && os.Getenv("VCHECK_DEBUG") != "" {
+		for _, e := range rel {
+			pv := -1
+			if e.prev != nil {
+				pv = e.prev.id
+			}
+			fmt.Fprintf(os.Stderr, "ev %d th=%d %s obj=%d n=%d name=%s prev=%d\n", e.id, e.th, e.kind, e.obj, e.n, e.name, pv)
+		}
+		fmt.Fprintf(os.Stderr, "witness order: %v\n", order)
+	}
 	switch r {
 	case smt.Sat:
 		if model == nil {
